@@ -1,6 +1,7 @@
 // Core of the simulator: names, plan (de)serialisation, memory, scheduler, yield points.
 #include "sim.hpp"
 #include <cerrno>
+#include <sys/mman.h>
 
 #ifdef SIM_ASAN
 extern "C" {
@@ -450,9 +451,12 @@ void world_run(World &w) {
     for (int i = 0; i < w.ntasks; i++) {
         Task &t = w.tasks[i];
         if (!g_stack_pool[i]) {
-            void *m = nullptr;
-            if (posix_memalign(&m, 4096, STACK_SIZE) != 0) abort();
-            g_stack_pool[i] = (uint8_t *)m;
+            // a guard page below each task stack: unbounded recursion in the library is a clean SIGSEGV, not silent
+            // corruption of the harness heap
+            void *m = mmap(nullptr, STACK_SIZE + 4096, PROT_READ | PROT_WRITE, MAP_PRIVATE | MAP_ANONYMOUS, -1, 0);
+            if (m == MAP_FAILED) abort();
+            mprotect(m, 4096, PROT_NONE);
+            g_stack_pool[i] = (uint8_t *)m + 4096;
         }
         t.stack = g_stack_pool[i];
         t.stack_size = STACK_SIZE;
